@@ -935,6 +935,16 @@ pub fn build_fzn(raw: &[u16], space_limit: u128) -> FznModel {
                         if v.is_empty() {
                             v.push(lb);
                         }
+                        // a set literal may list a value twice and in any order (the grammar does not forbid it)
+                        if g.coin(250) {
+                            let k = g.below(v.len());
+                            let dup = v[k];
+                            let at = g.below(v.len() + 1);
+                            v.insert(at, dup);
+                        }
+                        if g.coin(150) {
+                            v.reverse();
+                        }
                         SetE::Lits(v)
                     }
                 };
